@@ -19,6 +19,7 @@ package main
 import (
 	"bufio"
 	"bytes"
+	"context"
 	"encoding/json"
 	"flag"
 	"fmt"
@@ -28,6 +29,7 @@ import (
 	"path/filepath"
 	"sort"
 	"strings"
+	"time"
 )
 
 type Plan struct {
@@ -37,6 +39,7 @@ type Plan struct {
 	Reached []string `json:"reached"` // atoms that reached disk
 	Dangle  bool     `json:"dangle,omitempty"`
 	Seed    int64    `json:"seed"`
+	Src     string   `json:"src,omitempty"`
 }
 
 type event map[string]interface{}
@@ -82,6 +85,7 @@ func main() {
 	probe := flag.Bool("probe", false, "print the atoms of committing each of -heights and exit")
 	heights := flag.String("heights", "1,5,11,12,14", "")
 	extra := flag.Int("extra", 2, "reference blocks after the interrupted one")
+	childTimeout := flag.Int("child-timeout", 20, "seconds after which a case that does not return is recorded as a hang")
 	flag.Parse()
 	if *child {
 		runChild(*dir, *planJSON, *refJSON)
@@ -175,10 +179,18 @@ func main() {
 			panic(err)
 		}
 		pj, _ := json.Marshal(p)
-		cmd := exec.Command(self, "-child", "-dir", caseDir, "-plan", string(pj), "-ref", ref.file())
+		// a recovery that does not return is an observation too ("hang"), after a generous bound
+		limit := time.Duration(*childTimeout) * time.Second
+		if p.Dangle && limit > 5*time.Second {
+			limit = 5 * time.Second // known to hang in the block-file library; a healthy recovery takes well under a second
+		}
+		ctx, cancel := context.WithTimeout(context.Background(), limit)
+		cmd := exec.CommandContext(ctx, self, "-child", "-dir", caseDir, "-plan", string(pj), "-ref", ref.file())
 		var stdout, stderr bytes.Buffer
 		cmd.Stdout, cmd.Stderr = &stdout, &stderr
 		runErr := cmd.Run()
+		hung := ctx.Err() == context.DeadlineExceeded
+		cancel()
 		os.RemoveAll(caseDir)
 		var evs []event
 		sc := bufio.NewScanner(&stdout)
@@ -197,6 +209,12 @@ func main() {
 			}
 			return false
 		}
+		if hung && has("Crash") && !has("Recover") {
+			evs = append(evs, event{"ev": "Recover", "opened": false, "err": "hang", "msg": fmt.Sprintf("recovery did not return within %s", limit), "height": -1,
+				"version": -1, "headReadable": false, "stateRoot": "?", "journalRoot": "??", "dump": "", "hashes": []string{},
+				"above": event{"block": false, "bhash": false, "byHash": false, "txs": 0}})
+			evs = append(evs, event{"ev": "Continue", "ok": false, "err": "not opened", "msg": "", "hashes": []string{}, "height": -1})
+		}
 		if !has("Recover") {
 			fmt.Fprintf(os.Stderr, "crashadp: plan %s: child failed before recovery: %v\n%s\n", p.Name, runErr, tail(stderr.String(), 2000))
 			os.Exit(3)
@@ -204,6 +222,9 @@ func main() {
 		if !has("Continue") {
 			// the process died while continuing the chain (a panic in a persisting goroutine)
 			msg := "died"
+			if hung {
+				msg = "hang"
+			}
 			for _, l := range strings.Split(stderr.String(), "\n") {
 				if strings.HasPrefix(l, "panic:") {
 					msg = l
